@@ -246,7 +246,26 @@ func (p *parser) parseRegexpLabelParser() (*RegexpLabelParser, error) {
 	}, nil
 }
 
-func (p *parser) parseLabelPredicate() (pred LabelPredicate, _ error) {
+func (p *parser) parseLabelPredicate() (LabelPredicate, error) {
+	// `and` binds tighter than `or`: parse a chain of `and`-ed predicates first.
+	left, err := p.parseLabelPredicateAnd()
+	if err != nil {
+		return nil, err
+	}
+	if t := p.peek(); t.Type != lexer.Or {
+		return left, nil
+	}
+	// Consume "or".
+	p.next()
+
+	right, err := p.parseLabelPredicate()
+	if err != nil {
+		return nil, err
+	}
+	return &LabelPredicateBinOp{Left: left, Op: OpOr, Right: right}, nil
+}
+
+func (p *parser) parseLabelPredicateAnd() (pred LabelPredicate, _ error) {
 	switch t := p.next(); t.Type {
 	case lexer.OpenParen:
 		lp, err := p.parseLabelPredicate()
@@ -374,15 +393,10 @@ func (p *parser) parseLabelPredicate() (pred LabelPredicate, _ error) {
 		return nil, p.unexpectedToken(t)
 	}
 
-	var binOp BinOp
 	switch nextTok := p.next(); nextTok.Type {
 	case lexer.Ident:
 		p.unread()
-		binOp = OpAnd
 	case lexer.Comma, lexer.And:
-		binOp = OpAnd
-	case lexer.Or:
-		binOp = OpOr
 	case lexer.EOF:
 		return pred, nil
 	default:
@@ -390,11 +404,11 @@ func (p *parser) parseLabelPredicate() (pred LabelPredicate, _ error) {
 		return pred, nil
 	}
 
-	right, err := p.parseLabelPredicate()
+	right, err := p.parseLabelPredicateAnd()
 	if err != nil {
 		return nil, err
 	}
-	return &LabelPredicateBinOp{Left: pred, Op: binOp, Right: right}, nil
+	return &LabelPredicateBinOp{Left: pred, Op: OpAnd, Right: right}, nil
 }
 
 func (p *parser) parseLabelFormatExpr() (lf *LabelFormatExpr, err error) {
